@@ -160,11 +160,21 @@ void OPNMIDIplay::applySetup()
     }
     resetMIDIDefaults();
 #if defined(OPNMIDI_MIDI2VGM) && !defined(OPNMIDI_DISABLE_MIDI_SEQUENCER)
-    m_sequencerInterface->onloopStart = synth.m_loopStartHook;
-    m_sequencerInterface->onloopStart_userData = synth.m_loopStartHookData;
-    m_sequencerInterface->onloopEnd = synth.m_loopEndHook;
-    m_sequencerInterface->onloopEnd_userData = synth.m_loopEndHookData;
-    m_sequencer->setLoopHooksOnly(m_sequencerInterface->onloopStart != NULL);
+    if(synth.m_loopStartHook) // The VGM dumper takes the loop hooks over
+    {
+        m_sequencerInterface->onloopStart = synth.m_loopStartHook;
+        m_sequencerInterface->onloopStart_userData = synth.m_loopStartHookData;
+        m_sequencerInterface->onloopEnd = synth.m_loopEndHook;
+        m_sequencerInterface->onloopEnd_userData = synth.m_loopEndHookData;
+        m_sequencer->setLoopHooksOnly(true);
+    }
+    else // Any other chip: the hooks installed by the user stay in force
+    {
+        m_sequencerInterface->onloopStart = hooks.onLoopStart;
+        m_sequencerInterface->onloopStart_userData = hooks.onLoopStart_userData;
+        m_sequencerInterface->onloopEnd = hooks.onLoopEnd;
+        m_sequencerInterface->onloopEnd_userData = hooks.onLoopEnd_userData;
+    }
 #endif
     // Reset the arpeggio counter
     m_arpeggioCounter = 0;
@@ -181,11 +191,21 @@ void OPNMIDIplay::partialReset()
     m_chipChannels.resize(synth.m_numChannels);
     resetMIDIDefaults();
 #if defined(OPNMIDI_MIDI2VGM) && !defined(OPNMIDI_DISABLE_MIDI_SEQUENCER)
-    m_sequencerInterface->onloopStart = synth.m_loopStartHook;
-    m_sequencerInterface->onloopStart_userData = synth.m_loopStartHookData;
-    m_sequencerInterface->onloopEnd = synth.m_loopEndHook;
-    m_sequencerInterface->onloopEnd_userData = synth.m_loopEndHookData;
-    m_sequencer->setLoopHooksOnly(m_sequencerInterface->onloopStart != NULL);
+    if(synth.m_loopStartHook) // The VGM dumper takes the loop hooks over
+    {
+        m_sequencerInterface->onloopStart = synth.m_loopStartHook;
+        m_sequencerInterface->onloopStart_userData = synth.m_loopStartHookData;
+        m_sequencerInterface->onloopEnd = synth.m_loopEndHook;
+        m_sequencerInterface->onloopEnd_userData = synth.m_loopEndHookData;
+        m_sequencer->setLoopHooksOnly(true);
+    }
+    else // Any other chip: the hooks installed by the user stay in force
+    {
+        m_sequencerInterface->onloopStart = hooks.onLoopStart;
+        m_sequencerInterface->onloopStart_userData = hooks.onLoopStart_userData;
+        m_sequencerInterface->onloopEnd = hooks.onLoopEnd;
+        m_sequencerInterface->onloopEnd_userData = hooks.onLoopEnd_userData;
+    }
 #endif
 }
 
